@@ -2,7 +2,11 @@
 (***************************************************************************)
 (* Judge of executions recorded from the REAL governance contracts.        *)
 (* judge.ndjson: one recorded execution per line                            *)
-(*   [id, init (observation), steps: <<[a (action), r (result), t (obs)]>>] *)
+(*   [id, g (ghost state of the model state the execution starts in),       *)
+(*    init (observation), steps: <<[a (action), r (result), t (obs)]>>]     *)
+(* The execution starts in a state that the real contracts reached exactly  *)
+(* as the model predicted (projection equal), so the model's ghost state is *)
+(* the ghost state of the real execution up to there.                       *)
 (* as written by harness/cmd/vd-gov for every edge where the contracts      *)
 (* deviate from the model's prediction and for the exploration from the     *)
 (* deviating states.  The ghost state is folded over the execution with     *)
@@ -37,7 +41,9 @@ Fold(g, pre, steps, n, acc) ==
              v == Mon(g, pre, a, r, post)
          IN Fold(GhostNext(g, pre, a, r, post), post, steps, n + 1, acc \cup {[n |-> n, p |-> c.p, c |-> c.c] : c \in v})
 
-Judge(tr) == Fold(G0, ObsOf(tr.init), tr.steps, 1, {})
+BySet(X) == {[m |-> x.m, q |-> x.q, by |-> ToSet(x.by)] : x \in ToSet(X)}
+GOf(j) == [fresh |-> ToSet(j.fresh), appr |-> BySet(j.appr), old |-> BySet(j.old)]
+Judge(tr) == Fold(GOf(tr.g), ObsOf(tr.init), tr.steps, 1, {})
 
 Init == i = 0
 Next == /\ i < Len(Log)
